@@ -59,6 +59,7 @@ func (p *Processor[K, T]) Enqueue(r T) {
 	if p.stopped.Load() {
 		return
 	}
+	verifPoint("enqueue.checked")
 
 	// Insert or replace the item in the queue
 	// If the item added or replaced is the first one in the queue, we need to know that
@@ -77,6 +78,7 @@ func (p *Processor[K, T]) Dequeue(key K) {
 	if p.stopped.Load() {
 		return
 	}
+	verifPoint("dequeue.checked")
 
 	// We need to check if this is the next item in the queue, as that requires stopping the processor
 	p.lock.Lock()
